@@ -52,6 +52,7 @@ def gen_tasks(tier, seed):
             tasks.append({**base, "wt": "int", "eps": rng.choice([0.1, 1])})
             nf = {v: rng.choice((0, 1, 2, 3)) for v in G.nodes()}
             tasks.append({**base, "wt": "int", "edges": es, "node_flow": nf, "node_mode": True})
+            tasks.append({**base, "wt": "int", "edges": es, "node_flow": nf, "node_mode": True, "eps": 0.5})
             # node-weighted with additional starts / ends (structured values: the end node's own value differs from its neighbours')
             if inner:
                 for v_ in (inner if rep == 0 else inner[:1]):
